@@ -311,3 +311,99 @@ class DFlags(Plugin):
                         pl = pl[:3] + (True,) + pl[4:]      # libc routines that terminate what they write
             return [(pl, [])]
         return [(pl, [])]
+
+
+class AFlags(Plugin):
+    """allocation typestate: every malloc/calloc/realloc result is null-checked before it is dereferenced and freed on every path"""
+    inline_depth = 0
+
+    def init(s, eng):
+        s.prog = eng.prog
+        s.pinned = set()                         # facts about the nullness of allocation results are kept to the returns
+        return (frozenset(), frozenset())        # ({(alloc root, status)}, {violation tokens})
+
+    def no_inline(s, fn):
+        return True
+
+    @staticmethod
+    def _set(allocs, root, status):
+        return frozenset((r, st) for (r, st) in allocs if r != root) | {(root, status)}
+
+    def deref(s, pl, p, what, inst, fr, eng, facts):
+        allocs, viol = pl
+        if p is None or p[0] != "p":
+            return pl
+        for (r, stt) in allocs:
+            if r == p[1]:
+                nn = eng.decide(("cmp", "ne", Lin.atom("&" + r), Lin.const(0)), facts)
+                if nn is not True and stt != "checked":
+                    viol = viol | {("unchecked-use", r, what, inst.get("line"))}
+                if stt == "freed":
+                    viol = viol | {("use-after-free", r, what, inst.get("line"))}
+                return (allocs, viol)
+        return pl
+
+    def on_event(s, pl, ev, eng, st):
+        env, facts, epoch = st
+        k = ev[0]
+        if k == "load":
+            return s.deref(pl, ev[1], "load", ev[2], ev[3], eng, facts)
+        if k == "store":
+            pl = s.deref(pl, ev[1], "store", ev[3], ev[4], eng, facts)
+            v = ev[2]
+            if v[0] == "p":
+                allocs, viol = pl
+                if any(r == v[1] for (r, _) in allocs) and not (ev[1][0] == "p" and ev[1][1] in eng.positive_roots):
+                    allocs = s._set(allocs, v[1], "escaped")       # ownership handed to memory the caller can see
+                    return (allocs, viol)
+            return pl
+        return pl
+
+    def on_call(s, pl, call, eng, st):
+        env, facts, epoch = st
+        allocs, viol = pl
+        if call[0] == "ext":
+            name, eff, args, inst, fr, vid = call[1], call[2], call[3], call[4], call[5], call[6]
+            if name in ("malloc", "calloc") and vid:
+                if any(r == vid and stt == "live" for (r, stt) in allocs):
+                    viol = viol | {("leak-overwritten", vid, name, inst.get("line"))}
+                s.pinned.add("&" + vid)
+                return [((s._set(allocs, vid, "live"), viol), [])]
+            if name == "realloc" and vid:
+                s.pinned.add("&" + vid)
+                old = args[0]
+                outs = []
+                a_ok = allocs
+                a_fail = allocs
+                if old[0] == "p":
+                    for (r, stt) in allocs:
+                        if r == old[1]:
+                            a_ok = s._set(a_ok, r, "freed")
+                # success: old block released, new one live; failure: NULL returned, old block still owned
+                outs.append(((s._set(a_ok, vid, "live"), viol), [(lambda r: ("cmp", "ne", Lin.atom("&" + r[1]) + r[2], Lin.const(0)), True)]))
+                outs.append(((a_fail, viol), [(lambda r: ("cmp", "ne", Lin.atom("&" + r[1]) + r[2], Lin.const(0)), False)]))
+                return outs
+            if name == "free":
+                p = args[0]
+                if p[0] == "p":
+                    for (r, stt) in allocs:
+                        if r == p[1]:
+                            if stt == "freed":
+                                viol = viol | {("double-free", r, name, inst.get("line"))}
+                            allocs = s._set(allocs, r, "freed")
+                return [((allocs, viol), [])]
+            # any other external routine that reads or writes through an argument dereferences it
+            touched = {x[0] for x in eff.get("w", ())} | {x[0] for x in eff.get("r", ())}
+            pl2 = (allocs, viol)
+            for k_, a in enumerate(args):
+                if a[0] == "p" and (k_ in touched or not eff):
+                    pl2 = s.deref(pl2, a, "passed to %s" % name, inst, fr, eng, facts)
+            return [(pl2, [])]
+        if call[0] == "lib":
+            callee, args, inst, fr = call[1], call[2], call[3], call[4]
+            pl2 = (allocs, viol)
+            for a in args:
+                if a[0] == "p":
+                    pl2 = s.deref(pl2, a, "passed to %s" % callee.name, inst, fr, eng, facts)
+            return [(pl2, [])]
+        return [(pl, [])]
